@@ -36,6 +36,17 @@ func genCase(t *rapid.T) Case {
 	o := gen.YOpts{Depth: rapid.IntRange(1, 3).Draw(t, "depth"), Comments: rapid.IntRange(0, 3).Draw(t, "com") > 0, Anchors: rapid.Bool().Draw(t, "anch"),
 		Tags: rapid.Bool().Draw(t, "tags"), Flow: rapid.Bool().Draw(t, "flow"), Blocks: rapid.Bool().Draw(t, "blocks")}
 	docs := gen.StyledStream(t, o, 3)
+	// now and then a comment line longer than the usual line buffers (64 KiB), before the stream and after it
+	if rapid.IntRange(0, 39).Draw(t, "longcomment") == 0 {
+		long := "blob " + strings.Repeat("x", 66000+rapid.IntRange(0, 9000).Draw(t, "longlen"))
+		if rapid.Bool().Draw(t, "longlead") || len(docs) == 0 {
+			if docs[0].LeadComment != "" {
+				docs[0].LeadComment = long
+			}
+		} else if last := docs[len(docs)-1]; last.Trail != "" {
+			last.Trail = long
+		}
+	}
 	c := Case{Docs: docs, Text: gen.Text(docs)}
 	// shapes of the leading comment block of an implicit first document: a blank line after the block (two blocks
 	// when the first key has a comment of its own), a byte order mark, an indented first comment, a blank first line
